@@ -22,6 +22,11 @@ def is_mm(c, name):
     return 'mapmap::MapMap' in cal and cal.endswith('::' + name)
 
 
+RAW_RESPONSE = {
+    ("fil_actor_datacap::<&SyscallProvider<'_, RT> as fvm_actor_utils::syscalls::Syscalls>::send", None): 'adapter handing the raw response to the frc46 token library (trusted), which checks the receiver hook\'s exit code',
+}
+
+
 def token_send(prog, f, method_name):
     madt = prog.adts.get('fil_actor_verifreg::ext::datacap::Method')
     num = [v['discr'] for v in madt['variants'] if v['name'] == method_name][0] if madt else None
@@ -33,6 +38,9 @@ def run(prog, rep, tier, cfg):
     X = Ctx(prog, rep)
     rep.explanation = LEVEL_TEXT
     rep.not_decided = 'supply = sum of balances = minted - burnt over histories (token library frc46_token is trusted)'
+    # ---- every send of the registry and the token actor inspects the callee's exit code (a token call that aborted must abort the caller)
+    nx = sendsmod.exit_code_rule(X, rep, sendsmod.all_sends(prog, crates=(VR, DC)), RAW_RESPONSE)
+    rep.floor('K8', 'send_sites_exit_code', nx, 7)
     # ---- token helper functions: right method, amount = the argument, error propagated
     for fn_, meth, amt_idx, extra in (('mint', 'Mint', 3, {'to': 2}), ('burn', 'Burn', 2, {}), ('destroy', 'Destroy', 3, {'owner': 2}), ('transfer', 'Transfer', 3, {'to': 2})):
         F = X.fn(fn_, VR)
